@@ -124,13 +124,18 @@ def gen_histories(rng, tier):
         evs = [e[0] for e in fam[2]]
         for i in range(len(evs)):
             for j in range(i + 1, len(evs)):
-                for order in ORDERS2:
-                    for probe in fam[3]:
-                        pair = (evs[i], evs[j])
+                pair = (evs[i], evs[j])
+                for oi, order in enumerate(ORDERS2):
+                    # the first probe of a family is the call of the capability: full product with the orders;
+                    # the other probes rotate over the orders
+                    probes = [fam[3][0]]
+                    if len(fam[3]) > 1 and oi < 4:
+                        probes.append(fam[3][1 + k % (len(fam[3]) - 1)])
+                    for probe in probes:
                         uses = [(pair[o], probe, "RString") for o in order]
                         out.append(mk_hist(fam, uses, k % 2 == 1, "hist-core"))
                         k += 1
-    n_rand = 150 if tier == "quick" else 1500
+    n_rand = 110 if tier == "quick" else 1500
     for _ in range(n_rand):
         fam = rng.choice(fams)
         evs = [e[0] for e in fam[2]]
@@ -201,14 +206,16 @@ def coq_case(h, o):
         ST.get(o.get("st"), 3), cbool(bool(o.get("file")))))
 
 
-def run_histories(run, vh, hists, shard=300):
-    outs, rc, err = run_harness(vh, "c18h", [harness_case(h) for h in hists], timeout=600)
+def run_histories(run, vh, hists, shards=4):
+    """harness + model, `shards` pipelines side by side (every history is a self-contained program)"""
     import concurrent.futures
     qc = qcur_term(run)
-    chunks = [hists[i:i + shard] for i in range(0, len(hists), shard)]
+    n = max(1, (len(hists) + shards - 1) // shards)
+    chunks = [hists[i:i + n] for i in range(0, len(hists), n)]
 
     def do(idx_chunk):
         idx, chunk = idx_chunk
+        outs, rc, err = run_harness(vh, "c18h", [harness_case(h) for h in chunk], timeout=600)
         body = ["From Coq Require Import List String ZArith.",
                 "From Arrai Require Import Sys.Sandbox Sys.SandboxGen Sys.SandboxHist Check.C18HistCheck.",
                 "Import ListNotations. Open Scope string_scope. Open Scope list_scope.",
@@ -217,11 +224,12 @@ def run_histories(run, vh, hists, shard=300):
                 ";\n".join(coq_case(h, outs.get(h["id"])) for h in chunk),
                 "].\nDefinition R := Eval vm_compute in report qcur cases.\nPrint R."]
         rc2, so, se = coq_eval("c18_hist_%d" % idx, "\n".join(body))
-        return coq_report(so, "R"), se
+        return outs, coq_report(so, "R"), se
 
-    results = {}
-    with concurrent.futures.ThreadPoolExecutor(max_workers=4) as ex:
-        for (rep, se), chunk in zip(ex.map(do, enumerate(chunks)), chunks):
+    all_outs, results = {}, {}
+    with concurrent.futures.ThreadPoolExecutor(max_workers=shards) as ex:
+        for (outs, rep, se), chunk in zip(ex.map(do, enumerate(chunks)), chunks):
+            all_outs.update(outs)
             if rep is None:
                 run.corr_breaks.append({"what": "model evaluation failed (Check/C18HistCheck.v)", "log": se[-1500:]})
                 continue
@@ -229,7 +237,7 @@ def run_histories(run, vh, hists, shard=300):
                 results[h["id"]] = 0
             for hid, code in rep:
                 results[hid] = code
-    return outs, results
+    return all_outs, results
 
 
 def judge(run, hists, outs, results):
